@@ -36,7 +36,7 @@ func (pass *DuplicateObject) processSchema(visitor *Visitor, schema *ast.Schema)
 		return schema, nil
 	}
 
-	sourceObj, found := pass.schemas.LocateObjectByRef(pass.Object.AsRef())
+	sourceObj, found := pass.locateSource()
 	if !found {
 		return schema, nil
 	}
@@ -58,4 +58,22 @@ func (pass *DuplicateObject) processSchema(visitor *Visitor, schema *ast.Schema)
 	visitor.RegisterNewObject(duplicate)
 
 	return schema, nil
+}
+
+// locateSource finds the object designated by the pass' configuration: like every
+// other transformation, with ObjectReference.Matches.
+func (pass *DuplicateObject) locateSource() (ast.Object, bool) {
+	var source ast.Object
+	found := false
+
+	for _, schema := range pass.schemas {
+		schema.Objects.Iterate(func(_ string, object ast.Object) {
+			if !found && pass.Object.Matches(object) {
+				source = object
+				found = true
+			}
+		})
+	}
+
+	return source, found
 }
